@@ -55,12 +55,7 @@ Print Assumptions C05_delta_boundaries.
 
 Theorem C05_shape : forall fetch now st serial freshest urls, urls <> [] ->
   let c := fst (crl_check fetch now st serial freshest urls) in
-  cr_method c = MCRL /\
-  match cr_result c with
-  | ROK => cr_servers c = map (SRes ROK) urls
-  | RNonRevokable => False
-  | r => exists u, In u urls /\ cr_servers c = [SRes r u]
-  end.
+  cr_method c = MCRL /\ CrlEntries urls (cr_result c) (cr_servers c).
 Proof. exact shape. Qed.
 Print Assumptions C05_shape.
 
